@@ -11,31 +11,62 @@ returns every distinct binding of the captures exactly once.  Impossible pattern
 compile time with an error offset inside the source, and no pattern that matches some error-free
 tree of the language is rejected.*
 
-What is proved here is about the *model* (`Model.lean`): the executable enumeration `matchAll`
-that the check compares the real cursor with is exactly the declarative semantics `Sat*`:
+## Clause map: each phrase of the property text → theorems, with status
 
-* `matchAll_sound`  — every `(root, β)` in `matchAll vt p` has a node `n` of `vt` with that id and
-  `SatItem p n β`  ("returns only matches that satisfy the pattern, captures bound to the nodes");
-* `matchAll_complete` — every node `n` of `vt` and binding `β` with `SatItem p n β` is in
-  `matchAll vt p` ("every distinct binding"); proved for ALL patterns of the fragment, quantified
-  ones included (`matchAll_complete_qfree` is the instance the implementation is held to);
-* `matchAll_nodup` — `matchAll vt p` has no duplicates ("exactly once"; distinctness is over
-  (root, capture assignment): solutions that differ only in uncaptured nodes are one binding).
-* `mem_matchItem_iff` etc. — the underlying equivalences, by mutual structural induction.
-* `capture_count_within_quantifier` — in every `Sat` binding (hence in every enumerated match) a
-  capture occurs a number of times allowed by `capQItem`, the capture quantifier computed with the
-  tables GENERATED from query.c (`quantifier_add/join/mul`; `count_SatItem` etc. by mutual induction
-  on the pattern, `count_One/Many/Seq` for sibling sequences; uses C11's `quantifier_*_sound`).
-  The implementation's `Query::capture_quantifiers` is compared with `capQItem` on every case.
+Status: **proved** (kernel-checked, for all inputs of the fragment) · **partial** (under the stated
+hypothesis) · **judged** (decided by the Lean judge on the real `Query::new` / `QueryCursor::matches` of every
+generated case) · **nothing** (not decided by anything here).  Files: (P) this file, (J) JudgeProps.lean,
+(V) VerifyProps.lean, (G) GroupProps.lean.  All theorems are about the model (`Model.lean`, trusted to be the
+documented semantics) and the judge; everything about the IMPLEMENTATION is judged.
 
-Fragment: named nodes, anonymous literals, `(_)`, `_`, `(MISSING …)`, `(ERROR …)`, supertypes `(sup)` /
-`(sup/sub)` (`NodeTest.super`, over the hidden supertype chain `VInfo.sups`), fields, negated fields,
-children in order, anchors (leading / between / trailing), alternations, quantifiers `? * +` on child
-patterns, groups among children — plain, captured and quantified — through the parser's documented
-desugaring into variants of the child list (`Parse.lean`, `expandElems`).  Not in the fragment (cases are
-skipped as *unsupported*, never compared): top-level groups, anchors before quantified items or groups,
-quantified or field-prefixed roots, predicates.  The position-set verifier of `Verify.lean` is proved
-correct in `VerifyProps.lean`.
+1. *"returns only matches that satisfy the pattern (node types, wildcards, fields and negated fields, anchors,
+   supertypes, MISSING/ERROR, alternations, quantifiers) with captures bound to the nodes that satisfy it"*
+   - the semantics: `SatPat/SatAlts/SatItem/SatItems` with `testNode` (kinds, `(_)`, `_`, MISSING, ERROR,
+     supertypes), `fieldOk`, `negOk`, `blocked`/`One`/`Many`/`EndOk` (anchors), `Seq` (quantifiers) — definitions.
+   - enumeration = semantics: `matchAll_sound`, `mem_matchAll_iff` (J) (BOTH inclusions:
+     `(r, β) ∈ matchAll ⇔ ∃ node with id r, SatItem p n β`), `mem_matchPat/Item/Items_iff`, `mem_seq*_iff` —
+     **proved**, whole fragment (quantified patterns included).
+   - what the judge compares with IS the semantics: `mem_modelMatches_iff` (J), `canon_perm` (J) (captures are
+     compared sorted: order inside a match is not part of the claim) — **proved**.
+   - real matches ⊆ model matches: **judged** on every case, quantified or not (`impl.all model.contains`).
+   - wide trees (fan-out > 9, quantified): every real match is checked by the position-set verifier:
+     `verifyAnywhere_iff`, `verifyAnywhere_sound`, `verifyAnywhere_complete` (V) — **proved**; the run is **judged**.
+2. *"for quantifier-free patterns it returns every distinct binding of the captures exactly once"*
+   - `matchAll_complete` (= `matchAll_complete_qfree`), `matchAll_nodup`, `matchAll_exactly_once` (J) — **proved**
+     ("distinct" = distinct (root node, capture assignment); solutions that differ only in uncaptured nodes
+     are one binding).  Proved for ALL patterns of the fragment; the implementation is held to it for
+     quantifier-free ones.
+   - the driver's test is multiset equality: `counts_eq_of_sound_complete` (J) — **proved**; the real run is
+     **judged** (known findings: `duplicate`, `incomplete-subsumed`).
+   - (beyond the text) quantified patterns: "the longest binding is covered" (`?`-only queries) and "every
+     (capture, node) pair of the model is bound in some real match" — **judged** only.
+3. *"Impossible patterns are rejected at compile time with an error offset inside the source"*
+   - offset ≤ source length for every rejected query: **judged**.
+   - "impossible ⇒ rejected": **nothing** (impossibility quantifies over all trees of the language; a compiled
+     pattern without any model match on the explored trees is only counted, `qempty`).
+4. *"no pattern that matches some error-free tree of the language is rejected"* — **judged**, and only against the
+   explored error-free trees: a rejected pattern with a model match there is a violation
+   (`rejected-but-matches`; known findings for impossible alternation branches / optional children).
+5. (supporting, not in the text) capture quantifiers: `count_Seq`, `count_SatItem`,
+   `capture_count_within_quantifier` — **proved** (uses the GENERATED `quantifier_add/join/mul`); the compiler's
+   table = `capQItem`: **judged** (obligation `corr:capQItem`).
+6. (supporting) groups: `expandBs_direct`, `satVsK_finalize`, `buildNode_direct` (G) — **partial**: for nodes with at
+   most `n` children; `kids_le_maxFanout` (J) discharges that for every node of the tree when the parser is
+   given `n = maxFanout vt` (the driver does) — the parser's expansion of groups equals the direct semantics
+   `SatE/SatEs`; step 1 of the desugaring (`bareElem`) is syntactic and trusted.
+
+Fragment (compared): named nodes, anonymous literals, `(_)`, `_`, `(MISSING)`, `(MISSING kind)`, `(ERROR …)`,
+supertypes `(sup)` / `(sup/sub)`, fields, negated fields, children in order, anchors (leading / between /
+trailing), alternations (also nested, at the root, quantified), quantifiers `? * +` on child patterns, groups
+among children (plain, captured, quantified).
+OUTSIDE the fragment — the query is parsed to `none`, counted as `skip_unsupported` and NOT compared (nothing
+decides its results in C05; C11 still judges the agreement of the cursor's views on such queries, not their
+meaning): top-level sibling groups (non-rooted patterns); an anchor before a quantified child pattern or group;
+a quantified or field-prefixed root; a quantifier on an alternation BRANCH; a repeated group that has variants
+(contains an optional group) or whose body can match nothing; a captured / anchored group whose first element
+is quantified; an anchor at the start or end inside a group; negated fields inside a group; more than 128
+variants; predicates and directives (`#eq?` … are C11's); query comments; `(MISSING …)` with children.
+≈ 2.8 % of the thorough tier's generated queries (2 286 of 81 636).
 
 Choices where the docs are silent — the implementation decided (each was a model/implementation
 disagreement that was repaired in the model):
